@@ -128,7 +128,7 @@ impl Driver {
         if rec.panic.is_some() {
             self.violations.push(Violation {
                 property: "C06",
-                tag: "C06/panic".into(),
+                tag: panic_tag(rec.panic.as_deref().unwrap_or("")),
                 detail: format!("{} panicked: {}", rec.input.kind(), rec.panic.clone().unwrap_or_default()),
                 at: step_idx,
             });
@@ -253,4 +253,10 @@ pub fn describe_effect(e: &Effect, codec: CodecKind) -> String {
         Effect::Sched { timer, after } => format!("SCHED {timer:?} after {after:?}"),
         Effect::Notify(n) => format!("NOTIFY {n:?}"),
     }
+}
+
+/// Oracle tag for a panic: stable across runs, distinct per panic message.
+pub fn panic_tag(msg: &str) -> String {
+    let first: String = msg.lines().next().unwrap_or("").chars().take(48).map(|c| if c.is_ascii_alphanumeric() { c } else { '-' }).collect();
+    format!("C06/panic/{first}")
 }
